@@ -12,10 +12,10 @@
                          unbounded Z here).
    _grouped_reduce:      ufunc.reduceat at the run starts.
    COO._reduce_return:   COO(rows at the run starts, data, prune=True).reshape(kept extents).
-   GCXS:                 the decision structure of GCXS._reduce_calc (IndexError on the empty
-                         tuple, flatten().tocoo() path for None / any ordering of all axes, change
-                         of compressed axes to the kept axes otherwise — which ignores the order and
-                         multiplicity of the axes); the grouped
+   GCXS:                 the decision structure of GCXS._reduce_calc (ValueError on a repeated
+                         axis, the COO route for the empty tuple, flatten().tocoo() path for None /
+                         any ordering of all axes, change of compressed axes to the kept axes
+                         otherwise — which ignores the order of the axes); the grouped
                          reduction over the rows of the re-compressed array is the same function of
                          the sorted (row, col) list as in the COO path and is modelled by it (the
                          indptr arithmetic `diff(indptr) != 0`, `indptr[:-1][idx]`, ... is tied by
@@ -294,8 +294,12 @@ Section Generic.
     let ndim := zlen sh in
     let f := g_fill g in
     nax <- head ndim f ax ;;
+    (* if len(set(axis)) != len(axis): raise ValueError("duplicate value in 'axis'") *)
+    if match nax with Some l => negb (nodupb l) | None => false end then Raise ValueError else
     match nax with
-    | Some [] => Raise IndexError            (* axis[0] on the empty tuple *)
+    | Some [] =>
+      (* nothing is reduced: self.tocoo().reduce(method, axis=(), keepdims).asformat("gcxs", ...) *)
+      reduce_coo_with head fixc rfillf (AxTuple []) keepdims (gcxs_to_coo g)
     | _ =>
       (* axis[0] is None or np.array_equal(np.sort(axis), np.arange(ndim)) *)
       let full := match nax with None => true | Some l => zlist_eqb (zsort l) (zrange ndim) end in
@@ -395,16 +399,6 @@ Fixpoint idx_nodupb (l : list idx) : bool :=
 Definition gcxs_okb {V} (g : gcxs V) : bool :=
   forallb (in_rangeb (g_shape g)) (gcxs_coords g) && idx_nodupb (gcxs_coords g)
   && (length (g_data g) =? length (gcxs_coords g))%nat.
-
-(* what GCXS._reduce_calc needs of the normalised axis tuple (None is always fine):
-   gcxs_axes_nonempty   `axis[0]` raises IndexError on the empty tuple;
-   gcxs_axes_distinct   repeated axes are silently accepted (`set(axis)`) where NumPy raises *)
-Definition gcxs_axes_nonempty (nax : option (list Z)) : bool :=
-  match nax with Some [] => false | _ => true end.
-Definition gcxs_axes_distinct (nax : option (list Z)) : bool :=
-  match nax with Some l => nodupb l | None => true end.
-Definition gcxs_axes_ok (nax : option (list Z)) : bool :=
-  gcxs_axes_nonempty nax && gcxs_axes_distinct nax.
 
 (* ------------------------------------------------------------------ dtype promotion of mean / var
    dtype codes (tools/sitegen/reduce.py): 0 bool | 1..4 int8..int64 | 5..8 uint8..uint64 | 9 float16
